@@ -156,35 +156,39 @@ Proof.
 Qed.
 
 (* ---- C05, Interest side: the gate ---- *)
-Theorem gate_iff fe f k hd hasv :
-  gate fe f k = Some (hd, hasv) <->
-  (exists p, lpm f (k_name k) = Some (p, (hd, hasv))) /\ may_deliver fe hasv k = true.
+Theorem gate_iff fe dv f k hd hasv :
+  gate fe dv f k = Some (hd, hasv) <->
+  (exists p, lpm f (k_name k) = Some (p, (hd, hasv))) /\ may_deliver fe (in_force fe hasv dv) k = true.
 Proof.
-  unfold gate, may_deliver, plain, signed, validator_accepts, sha256_digest_checker.
+  unfold gate, may_deliver, in_force, plain, signed, validator_accepts, sha256_digest_checker.
   destruct (lpm f (k_name k)) as [[p [h0 hv0]]|]; [|split; [discriminate | intros [[p E] _]; discriminate]].
   destruct k as [kid kn kp ks kd kv]; cbn [k_name k_params k_sig k_digest_ok k_verdict].
-  destruct fe, kp, (ks =? 0), kd, hv0; cbn [negb andb orb];
+  destruct fe, dv, kp, (ks =? 0), kd, hv0; cbn [negb andb orb];
     try destruct (pass V2 kv); try destruct (pass V1 kv); try destruct (ks =? 2); cbn [negb andb orb];
     (split; [intros E; first [discriminate E | (inversion E; subst; split; [eexists; reflexivity | reflexivity])]
             | intros [[p' E] M]; inversion E; subst; first [reflexivity | discriminate M]]).
 Qed.
 
 Definition gate_log_ok (fe : frontend) (s : st) : Prop :=
-  forall hd k, In (hd, k) (hcalls s) -> exists hasv, may_deliver fe hasv k = true.
+  forall hd k, In (hd, k) (hcalls s) -> exists own, may_deliver fe own k = true.
 
 Lemma hcalls_settle fe s : hcalls (settle fe s) = hcalls s. Proof. reflexivity. Qed.
 Lemma hcalls_fire b t s : hcalls (fire b t s) = hcalls s. Proof. reflexivity. Qed.
+Lemma fib_settle fe s : fib (settle fe s) = fib s. Proof. reflexivity. Qed.
+Lemma fib_fire b t s : fib (fire b t s) = fib s. Proof. reflexivity. Qed.
+Lemma dflt_settle fe s : dflt (settle fe s) = dflt s. Proof. reflexivity. Qed.
+Lemma dflt_fire b t s : dflt (fire b t s) = dflt s. Proof. reflexivity. Qed.
 
 Lemma hcalls_apply fe s e :
   hcalls (apply fe s e) = hcalls s \/
-  exists hd hv k, gate fe (fib s) k = Some (hd, hv) /\ hcalls (apply fe s e) = hcalls s ++ [(hd, k)].
+  exists hd hv k, gate fe (dflt s) (fib s) k = Some (hd, hv) /\ hcalls (apply fe s e) = hcalls s ++ [(hd, k)].
 Proof.
   destruct e; cbn [apply]; try (left; reflexivity).
   - left. unfold do_express. destruct (shut s); [reflexivity|]. destruct (al_mem N.eqb (ints s) i); [reflexivity|].
     destruct (pit_get (pit s) n) as [[? ?]|]; reflexivity.
   - left. unfold do_shutdown. destruct (shut s); reflexivity.
   - left. unfold do_attach. destruct (al_mem name_eqb (fib s) p); reflexivity.
-  - unfold do_incoming. cbn [hcalls]. destruct (gate fe (fib s) _) as [[hd hv]|] eqn:G; [right; eauto | left; reflexivity].
+  - unfold do_incoming. cbn [hcalls]. destruct (gate fe (dflt s) (fib s) _) as [[hd hv]|] eqn:G; [right; eauto | left; reflexivity].
 Qed.
 
 Lemma gate_log_step fe s x : gate_log_ok fe s -> gate_log_ok fe (step fe s x).
@@ -198,9 +202,74 @@ Proof.
 Qed.
 
 Theorem interest_gate fe h hd k :
-  In (hd, k) (hcalls (run_hist fe h)) -> exists hasv, may_deliver fe hasv k = true.
+  In (hd, k) (hcalls (run_hist fe h)) -> exists own, may_deliver fe own k = true.
 Proof.
   assert (G : forall s, gate_log_ok fe s -> gate_log_ok fe (fold_left (step fe) h s)).
   { induction h as [|x h IH]; cbn; auto. intros s H. apply IH, gate_log_step, H. }
   apply (G init). intros ? ? [].
+Qed.
+
+(* ---- the validator in force: the application-wide validator is read when the Interest is dispatched ---- *)
+Lemma dflt_apply fe s e :
+  dflt (apply fe s e) = match e with SetDefault own _ => own | _ => dflt s end.
+Proof.
+  destruct e; cbn [apply]; try reflexivity.
+  - unfold do_express. destruct (shut s); [reflexivity|]. destruct (al_mem N.eqb (ints s) i); [reflexivity|].
+    destruct (pit_get (pit s) n) as [[? ?]|]; reflexivity.
+  - unfold do_shutdown. destruct (shut s); reflexivity.
+  - unfold do_attach. destruct (al_mem name_eqb (fib s) p); reflexivity.
+Qed.
+
+Lemma dflt_step fe s x :
+  dflt (step fe s x) = match snd x with SetDefault own _ => own | _ => dflt s end.
+Proof.
+  unfold step. rewrite dflt_settle, dflt_fire, dflt_apply.
+  assert (P : forall t, dflt (pre fe (fst x) t (set_now s t)) = dflt s) by (intros t; unfold pre; destruct (fst x); reflexivity).
+  rewrite P. reflexivity.
+Qed.
+
+(* the model's app.int_validator after a history is the last SetDefault of that history *)
+Theorem dflt_run fe h : dflt (run_hist fe h) = default_of h.
+Proof.
+  unfold run_hist, default_of.
+  assert (G : forall s d, dflt s = d ->
+              dflt (fold_left (step fe) h s)
+              = fold_left (fun d x => match snd x with SetDefault own _ => own | _ => d end) h d).
+  { induction h as [|x h IH]; cbn [fold_left]; intros s d E; [exact E|]. apply IH. rewrite dflt_step, E. reflexivity. }
+  apply G. reflexivity.
+Qed.
+
+(* An Interest arriving after the history [h]: the handler of its longest-prefix route is called iff the
+   specification allows delivery under the validator in force at that moment (route validator, else the application-wide
+   validator as last set in [h]); nothing else is called. *)
+Theorem incoming_after fe h m k n hp sg dok v t :
+  let e := Incoming k n hp sg dok v t in
+  let s := run_hist fe h in
+  hcalls (run_hist fe (h ++ [(m, e)]))
+  = hcalls s ++ match gate fe (default_of h) (fib s) (mkInc k n hp sg dok v) with
+                | Some (hd, _) => [(hd, mkInc k n hp sg dok v)]
+                | None => []
+                end.
+Proof.
+  cbv zeta. unfold run_hist. rewrite fold_left_app. cbn [fold_left]. fold (run_hist fe h).
+  rewrite <- (dflt_run fe h). set (s := run_hist fe h).
+  unfold step. cbn [fst snd]. rewrite hcalls_settle, hcalls_fire. cbn [apply]. unfold do_incoming. cbn [hcalls].
+  set (s1 := pre fe m _ _).
+  assert (P1 : hcalls s1 = hcalls s) by (unfold s1, pre; destruct m; reflexivity).
+  assert (P2 : fib s1 = fib s) by (unfold s1, pre; destruct m; reflexivity).
+  assert (P3 : dflt s1 = dflt s) by (unfold s1, pre; destruct m; reflexivity).
+  rewrite P1, P2, P3. destruct (gate fe (dflt s) (fib s) _) as [[hd hv]|]; [reflexivity | rewrite app_nil_r; reflexivity].
+Qed.
+
+Corollary incoming_after_iff fe h m k n hp sg dok v t hd :
+  let kk := mkInc k n hp sg dok v in
+  In (hd, kk) (hcalls (run_hist fe (h ++ [(m, Incoming k n hp sg dok v t)]))) ->
+  In (hd, kk) (hcalls (run_hist fe h)) \/
+  exists p hasv, lpm (fib (run_hist fe h)) n = Some (p, (hd, hasv)) /\
+                 may_deliver fe (in_force fe hasv (default_of h)) kk = true.
+Proof.
+  cbv zeta. rewrite incoming_after. intros I. apply in_app_iff in I. destruct I as [I|I]; [left; exact I|]. right.
+  destruct (gate fe (default_of h) (fib (run_hist fe h)) _) as [[hd' hv]|] eqn:G; [|destruct I].
+  destruct I as [X|[]]. inversion X; subst hd'.
+  apply gate_iff in G. destruct G as [[p L] M]. cbn [k_name] in L. eauto.
 Qed.
